@@ -29,4 +29,13 @@ theorem revokes_iff (a : Access) : a.canGet ≠ none ↔ ¬ (a.err = none ∧ a.
 
 example : (⟨none, false, "*"⟩ : Access).canGet = some "system.accessDenied" := by decide
 
+/-- Every trigger (`handleReaccess`) drops the remembered verdict, whatever it was and whatever the
+    history before: the re-validation cannot be answered from memory, and an answer that is not
+    stored (timeout, error other than accessDenied) leaves nothing to fall back on. -/
+theorem trigger_drops_verdict (h : List Gw.VEv) (b : Gw.Access) (hb : Gw.storeVerdict b = false) :
+    Gw.verdictAfter (Gw.VEv.trigger :: h) = none ∧
+    Gw.verdictAfter (Gw.VEv.answer b :: Gw.VEv.trigger :: h) = none := by
+  refine ⟨rfl, ?_⟩
+  simp [Gw.verdictAfter, Gw.verdictStep, hb]
+
 end Resgate.C06
